@@ -30,7 +30,12 @@ PROPERTIES = {
                 "first Write of a call fails with a real error kind (ENOBUFS, EAGAIN, EINTR, EPIPE, ECONNRESET, a net.Error "
                 "with Timeout/Temporary, io.ErrShortWrite, os.ErrDeadlineExceeded, context.DeadlineExceeded, also wrapped "
                 "in os.SyscallError / net.OpError) after accepting n = 0..16 bytes while any further Write would succeed: "
-                "still exactly one Write of the frame's 16 bytes and that error returned.",
+                "still exactly one Write of the frame's 16 bytes and that error returned. A third of the unaligned block "
+                "batches runs again through a read script WITH a fault (QF lines: an error between or inside blocks, data "
+                "and error in one Read, io.EOF, injected errors and real timeout-kind net.Errors) after which the scripted "
+                "stream continues while the client keeps calling Receive: every block completed by the bytes delivered up "
+                "to and including the faulting Read decodes per the theorem, every other call yields nothing - no frame is "
+                "ever decoded from a wrong offset (reception stays ended, C07).",
         "note": _NOTE + "The standard-ID/flag/length lattice of the correspondence is exhaustive; extended IDs, payloads and "
                         "blocks are sampled (structured + random). That the decoded frame does not depend on how the "
                         "block is cut into reads is C07's theorem (C07_segmentation_independent); C06 only samples it "
@@ -92,7 +97,14 @@ PROPERTIES = {
                 "than the model says and thereby lost bytes of its datagram (clause frames-lost-to-a-short-read-buffer), and "
                 "compares the frames with those of the datagrams cut to the room the MODEL offers (datagrams of 1..64 "
                 "frames, alone / after an 8-byte fragment / in sequences, arbitrary odd sizes, empty datagrams, and "
-                "datagrams of 2032..5000 bytes after 0..200 frames, where the model must predict the cut exactly).",
+                "datagrams of 2032..5000 bytes after 0..200 frames, where the model must predict the cut exactly). The "
+                "error-injection scripts also use real error kinds (among them read-deadline errors with Timeout() true) "
+                "and every second one is POLLED on: Receive is called until it has returned false four times while the "
+                "scripted stream continues after the fault (reception stays ended). Y lines: histories of 3..12 "
+                "TransmitFrame calls by 1..3 Transmitters on ONE fake conn with contexts reused along the history (the same "
+                "deadline twice in a row, alternating deadlines, none) and SetWriteDeadline / Write faults at random steps; "
+                "the conn records which deadline it was given and C07_transmit_cases is compared with the event list of "
+                "EVERY call: a call whose context has a deadline sets its own deadline on the conn before it writes.",
         "note": _NOTE + "bufio.Scanner is modelled, not verified (oracle, DESIGN.md section 3): buffer shifting/doubling is "
                         "abstracted as re-segmentation of reads, a reader violating 0 <= n <= len(p) is not modelled. "
                         "TransmitFrame discards the byte count returned by Write: model = code, so a Write answering "
@@ -136,7 +148,8 @@ RULES = {
            "1..47 not divisible by 16 / by a random partition / not at all (all blocks in one read); "
            "all 256 length bytes x 8 flag combinations x 4 IDs as R lines; X lines: valid frames, first Write of the call "
            "answering (n, real error kind) for n 0..16 x 15 kinds x with/without deadline, alone and inside a 5-call "
-           "sequence, later Writes of the call succeeding; "
+           "sequence, later Writes of the call succeeding; QF lines: every 3rd Q batch again with a fault in the read "
+           "script (error alone or with data, EOF / injected / real kinds) and len(blocks)+3 Receive calls; "
            "distinct by line hash; every case counts "
            "as non-trivial (each exercises a different ID/flag/length/byte pattern)",
     "C07": "S lines = one scripted connection each: const chunk sizes 1..64 x 112 stream lengths; all cut sets for n <= 17 "
@@ -159,7 +172,9 @@ RULES = {
            "one connection: 600 fileConn/duplex-file schedules, 10 each on real udp / tcp / unix connections with deadlines "
            "a few ms ahead that are allowed to pass before reception continues; G lines = packet connections: 192 "
            "datagram scripts of 1..64 frames, 300 streams cut into datagrams of arbitrary sizes (with empty datagrams), 63 "
-           "oversize scripts (2032..5000 bytes after 0..200 frames), 12 scripts on the real udp transceiver. "
+           "oversize scripts (2032..5000 bytes after 0..200 frames), 12 scripts on the real udp transceiver; error scripts "
+           "use injected + 15 real error kinds, every second one polled until 4 falses; Y lines = 150 x 3 transmitter "
+           "counts x 3 context patterns call histories on one conn. "
            "non-trivial = at least one complete frame or a non-nil terminating error; distinct by line hash",
 }
 
